@@ -615,7 +615,8 @@ theorem inspect_mem (s : Sys) (a : Nat) :
     ∀ x ∈ (s.inspect a).1.mem.sigs,
       (∃ y ∈ s.mem.sigs, y.core = x.core) ∨
       (∃ p r k, (s.agents a).display = some p ∧ (s.inspect a).2 = .resp r ∧ Threat r.level ∧ r.s2 ≠ .cross ∧
-        (r.level = .critical → r.action = .shutdown) ∧ x = ⟨a, p.vocab, p.struct, r.level, r.action, k⟩) := by
+        (r.level = .critical → r.action = .shutdown) ∧ AtMostOneStepLower (actionFor r.level) r.action ∧
+        x = ⟨a, p.vocab, p.struct, r.level, r.action, k⟩) := by
   intro x hx
   rcases sys_inspect_cases s a with ⟨-, he⟩ | ⟨t, -, -, he⟩ | ⟨t, p, sig, -, -, -, -, -, -, hm, -⟩ | ⟨t, p, -, h2, he⟩
   · rw [he] at hx; exact Or.inl ⟨x, hx, rfl⟩
@@ -631,9 +632,10 @@ theorem inspect_mem (s : Sys) (a : Nat) :
       · exact Or.inl (recallGo_core _ _ _ _ _ x hx)
       · right
         obtain ⟨h1, h2', h3⟩ := softened_one_step t p r' hsoft
-        refine ⟨p, r', k, h2, hx', by rw [h1]; exact hthr, ?_, ?_, ?_⟩
+        refine ⟨p, r', k, h2, hx', by rw [h1]; exact hthr, ?_, ?_, ?_, ?_⟩
         · rw [hsoft.2.2.1]; exact inspect_s2_ne_cross t p
         · intro hc; rw [h1] at hc; exact h3 hc
+        · rw [h1, ← l17_tcell_action_matches_level]; exact h2'
         · rw [hx, h1]
 
 theorem train_mem (s : Sys) (a : Nat) : (s.train a).1.mem = s.mem := by
@@ -661,7 +663,8 @@ def Reported (tr : List Obs) (x : Sig) : Prop :=
     r.level = x.level ∧ r.action = x.action ∧ r.s2 ≠ .cross
 
 def MemGenuine (m : Memory) (tr : List Obs) : Prop :=
-  ∀ x ∈ m.sigs, Threat x.level ∧ (x.level = .critical → x.action = .shutdown) ∧ Reported tr x
+  ∀ x ∈ m.sigs, Threat x.level ∧ (x.level = .critical → x.action = .shutdown) ∧
+    AtMostOneStepLower (actionFor x.level) x.action ∧ Reported tr x
 
 theorem reported_of_core (tr : List Obs) (x y : Sig) (h : y.core = x.core) (hy : Reported tr y) : Reported tr x := by
   simp only [Sig.core, Prod.mk.injEq] at h
@@ -680,19 +683,20 @@ theorem step_genuine (s : Sys) (pre : List Obs) (op : Op) (h : MemGenuine s.mem 
   · obtain ⟨a, rfl⟩ := hi
     intro x hx
     simp only [Sys.step] at hx ⊢
-    rcases inspect_mem s a x hx with ⟨y, hy, hc⟩ | ⟨p, r, k, hd, hr, hthr, hs2, hcr, rfl⟩
-    · obtain ⟨g1, g2, g3⟩ := h y hy
+    rcases inspect_mem s a x hx with ⟨y, hy, hc⟩ | ⟨p, r, k, hd, hr, hthr, hs2, hcr, hone, rfl⟩
+    · obtain ⟨g1, g2, g4, g3⟩ := h y hy
       have hc' := hc
       simp only [Sig.core, Prod.mk.injEq] at hc'
-      refine ⟨by rw [← hc'.2.2.2.1]; exact g1, ?_, reported_mono _ _ _ (reported_of_core _ _ _ hc g3)⟩
-      rw [← hc'.2.2.2.1, ← hc'.2.2.2.2]; exact g2
-    · refine ⟨hthr, hcr, p, r, ?_, rfl, rfl, rfl, rfl, hs2⟩
+      refine ⟨by rw [← hc'.2.2.2.1]; exact g1, ?_, ?_, reported_mono _ _ _ (reported_of_core _ _ _ hc g3)⟩
+      · rw [← hc'.2.2.2.1, ← hc'.2.2.2.2]; exact g2
+      · rw [← hc'.2.2.2.1, ← hc'.2.2.2.2]; exact g4
+    · refine ⟨hthr, hcr, hone, p, r, ?_, rfl, rfl, rfl, rfl, hs2⟩
       rw [hd, hr]; simp
   · have hm := step_mem s op (fun a ha => hi ⟨a, ha⟩)
     intro x hx
     rw [hm] at hx
-    obtain ⟨g1, g2, g3⟩ := h x hx
-    exact ⟨g1, g2, reported_mono _ _ _ g3⟩
+    obtain ⟨g1, g2, g4, g3⟩ := h x hx
+    exact ⟨g1, g2, g4, reported_mono _ _ _ g3⟩
 
 theorem run_genuine (ops : List Op) : ∀ (s : Sys) (pre : List Obs), MemGenuine s.mem pre →
     MemGenuine (s.run ops).1.mem (pre ++ (s.run ops).2) := by
@@ -737,6 +741,42 @@ theorem run_critical_shutdown (ops : List Op) : ∀ (s : Sys) (pre : List Obs), 
       | _ => simp [Sys.step, hor] at ho
     · exact ih (s.step op).1 (pre ++ [(s.step op).2]) (step_genuine s pre op h) o ho a sh r hor hc
 
+
+/-- every response's action is the one its level calls for or one rung below, provided the memory only holds
+    such pairs -/
+theorem inspect_within_one_step (s : Sys) (a : Nat) (r : Response)
+    (hm : ∀ x ∈ s.mem.sigs, AtMostOneStepLower (actionFor x.level) x.action)
+    (h : (s.inspect a).2 = .resp r) : AtMostOneStepLower (actionFor r.level) r.action := by
+  rcases sys_inspect_cases s a with ⟨-, he⟩ | ⟨t, -, -, he⟩ | ⟨t, p, sig, -, -, hr, -, -, he, -⟩ | ⟨t, p, -, -, he⟩
+  · rw [he] at h; cases h
+  · rw [he] at h; cases h; exact Or.inl rfl
+  · rw [he] at h; cases h
+    exact hm sig (recallGo_some _ _ _ _ _ _ hr).1
+  · rw [he] at h
+    rcases afterTCell_spec s a (s.agents a) p (s.memAfterRecall a p) (t.inspect p).1 (t.inspect p).2 with
+      ⟨hx, -⟩ | ⟨r', hx, hsoft, -⟩
+    · rw [hx] at h; cases h
+    · rw [hx] at h; cases h
+      obtain ⟨h1, h2, -⟩ := softened_one_step t p _ hsoft
+      rw [h1, ← l17_tcell_action_matches_level]; exact h2
+
+theorem run_within_one_step (ops : List Op) : ∀ (s : Sys) (pre : List Obs), MemGenuine s.mem pre →
+    ∀ o ∈ (s.run ops).2, ∀ a sh r, o = .inspected a sh (.resp r) →
+      AtMostOneStepLower (actionFor r.level) r.action := by
+  induction ops with
+  | nil => intro s pre _ o ho; simp [Sys.run] at ho
+  | cons op rest ih =>
+    intro s pre h o ho a sh r hor
+    simp only [Sys.run, List.mem_cons] at ho
+    rcases ho with ho | ho
+    · cases op with
+      | inspect b =>
+        simp only [Sys.step] at ho
+        rw [hor] at ho
+        injection ho with e1 e2 e3
+        exact inspect_within_one_step s b r (fun x hx => (h x hx).2.2.1) e3.symm
+      | _ => simp [Sys.step, hor] at ho
+    · exact ih (s.step op).1 (pre ++ [(s.step op).2]) (step_genuine s pre op h) o ho a sh r hor
 
 /-! ### Training and T-cell histories -/
 
